@@ -143,20 +143,39 @@ def run_lat(sc: Dict[str, Any]) -> Dict[str, Any]:
                     rec[k] = [int(round(abs(float(v)) * 10)) for v in par.detach().tolist()]
         L.append(rec)
 
-    def observe():
+    els = [e for e in pit_elements(pit, arch)]
+    flat = [(e, idx) for e in els for idx in range(e[2].numel())]
+    targets = [e[2] for e in els if e[2].requires_grad]
+
+    def observe(with_grad: bool):
         out = []
         for m in metrics:
             for d in (False, True):
                 u = model_unit(m, arch)
                 try:
-                    c = float(_pit_cost(pit, m, d, False).detach())
+                    ct = _pit_cost(pit, m, d, False)
+                    c = float(ct.detach())
                     ok = _finite(c) and abs(c) * u < MAXI
-                    out.append({"m": m, "d": d, "u": u, "c": int(round(c * u)) if ok else -1, "ok": ok})
+                    rec = {"m": m, "d": d, "u": u, "c": int(round(c * u)) if ok else -1, "ok": ok, "nz": [], "gfin": True}
+                    if with_grad:        # gradient bits of this metric at this lattice state, one per parameter entry
+                        gs = {}
+                        if ct.requires_grad and targets:
+                            gs = {id(p): g for p, g in zip(targets, torch.autograd.grad(ct, targets, allow_unused=True))}
+                        for e, idx in flat:
+                            g = gs.get(id(e[2]))
+                            gv = None if g is None else g.reshape(-1)[idx]
+                            rec["nz"].append(False if gv is None else bool(gv != 0))
+                            if gv is not None and not bool(torch.isfinite(gv)):
+                                rec["gfin"] = False
+                    out.append(rec)
                 except Exception as e:           # the cost cannot even be evaluated
-                    out.append({"m": m, "d": d, "u": u, "c": -1, "ok": False, "err": f"{type(e).__name__}: {str(e)[:80]}"})
+                    out.append({"m": m, "d": d, "u": u, "c": -1, "ok": False, "nz": [False] * (len(flat) if with_grad else 0),
+                                "gfin": True, "err": f"{type(e).__name__}: {str(e)[:80]}"})
         return out
 
-    tr: Dict[str, Any] = {"kind": "lat", "arch": arch, "L": L, "obs": observe(), "orig": [], "succ": []}
+    tr: Dict[str, Any] = {"kind": "lat", "arch": arch, "L": L, "obs": observe(True), "orig": [], "succ": [],
+                          "els": [{"k": e[0], "n": int(e[1]), "i": idx + 1, "tr": bool(e[2].requires_grad),
+                                   "v": int(round(abs(float(e[2].detach().reshape(-1)[idx])) * 10))} for e, idx in flat]}
     names = {"layers." + lname(pitdrv.owner(arch, n)) for n in search}
     if ck + "|orig" not in _LAT_CACHE:
         orig = []
@@ -173,7 +192,7 @@ def run_lat(sc: Dict[str, Any]) -> Dict[str, Any]:
         p = _param_of(pit, arch, k, n)
         old = float(p.detach()[i - 1])
         _write_abs(pit, arch, k, n, i, v, rng)
-        tr["succ"].append({"e": [k, n, i], "v": int(v), "obs": observe()})
+        tr["succ"].append({"e": [k, n, i], "v": int(v), "obs": observe(False)})
         with torch.no_grad():
             p[i - 1] = old
     return tr
@@ -222,6 +241,34 @@ class Ctx:
         raise NotImplementedError
 
 
+def pit_elements(pit, arch):
+    """Trainable-parameter entries of a real PIT model: (kind, first call site, parameter, keep-alive bits, False, "").
+    A shared channel mask is listed once, at the first (smallest) searchable call site that uses it."""
+    from . import pitdrv
+    out, seen = [], set()
+    for n in pitdrv.searchable_nodes(arch):
+        if pitdrv.owner(arch, n) != n:          # a further call site of a layer object already listed
+            continue
+        ly = pitdrv.layer(pit, n)
+        cands = [("a", getattr(ly, "out_features_masker", None), "alpha")]
+        if hasattr(ly, "timestep_masker"):
+            cands += [("b", ly.timestep_masker, "beta"), ("g", ly.dilation_masker, "gamma")]
+        for k, mk, attr in cands:
+            if mk is None:
+                continue
+            p = mk._parameters.get(attr)
+            if p is None or id(p) in seen:
+                continue
+            seen.add(id(p))
+            ka = [int(v) for v in mk._keep_alive.detach().tolist()] if hasattr(mk, "_keep_alive") else None
+            out.append((k, n, p, ka, False, ""))
+    for _, p in pit.named_nas_parameters():        # anything plinio reports that the walk did not find
+        if id(p) not in seen:
+            seen.add(id(p))
+            out.append(("u", 0, p, None, False, ""))
+    return out
+
+
 class PitCtx(Ctx):
     method = "pit"
 
@@ -242,33 +289,12 @@ class PitCtx(Ctx):
         with torch.no_grad():
             for _, p in self.model.named_nas_parameters():
                 for i in range(p.numel()):
-                    v = rng.choice([rng.uniform(0.05, 0.44), rng.uniform(0.56, 1.4), 1.0])
+                    # where a search may be after some epochs: below / just above the threshold, at the initial 1, beyond 1
+                    v = rng.choice([rng.uniform(0.05, 0.44), 0.3, rng.uniform(0.56, 0.95), 0.6, 1.0, rng.uniform(1.05, 1.8), 1.5])
                     p.view(-1)[i] = v * rng.choice([1.0, -1.0])
 
     def elements(self):
-        from . import pitdrv
-        out, seen = [], set()
-        for n in pitdrv.searchable_nodes(self.arch):
-            if pitdrv.owner(self.arch, n) != n:          # a further call site of a layer object already listed
-                continue
-            ly = pitdrv.layer(self.model, n)
-            cands = [("a", getattr(ly, "out_features_masker", None), "alpha")]
-            if hasattr(ly, "timestep_masker"):
-                cands += [("b", ly.timestep_masker, "beta"), ("g", ly.dilation_masker, "gamma")]
-            for k, mk, attr in cands:
-                if mk is None:
-                    continue
-                p = mk._parameters.get(attr)
-                if p is None or id(p) in seen:
-                    continue
-                seen.add(id(p))
-                ka = [int(v) for v in mk._keep_alive.detach().tolist()] if hasattr(mk, "_keep_alive") else None
-                out.append((k, n, p, ka, False, ""))
-        for _, p in self.model.named_nas_parameters():        # anything plinio reports that the walk did not find
-            if id(p) not in seen:
-                seen.add(id(p))
-                out.append(("u", 0, p, None, False, ""))
-        return out
+        return pit_elements(self.model, self.arch)
 
     def raise_elem(self, p, idx):
         torch = _torch()
